@@ -94,13 +94,14 @@ Definition c02_keycfg (c : c02case) : Seal.cfg :=
      Seal.ed_file := if k_ed_ca c then Some (key_pass, 2, Seal.FGood) else None; Seal.extra_pubkeys := k_extra c |}.
 Definition c02_server (c : c02case) : server :=
   {| s_keys := fst (Seal.unseal_ca (c02_keycfg c) (Seal.sealed_init (c02_keycfg c)) key_pass);
-     s_cfg := [sU2F]; s_name := fun _ => k_user c; s_host := k_host c;
+     s_cfg := [sU2F]; s_name := fun _ => k_user c; s_host := k_host c; s_addr := s_port443;
      s_templates := k_templates c; s_realm := k_realm c;
      s_groups := fun _ => k_groups c; s_methods := fun _ => k_methods c |}.
 
 Definition c02_outcome (c : c02case) : outcome :=
   let st := c02_server c in
-  let q := {| q_method := HPost; q_origin := NoOrigin; q_tls := None; q_cred := Cookie (tok 1 bU2F);
+  let q := {| q_method := HPost; q_origin := NoOrigin; q_tls := None;
+              q_cookie := Some (with_claims (tok 1 bU2F) (issuer_of st) [issuer_of st]); q_basic := None;
               q_target := k_target c; q_type := type_of_index (k_type c); q_form_ok := true;
               q_key := k_key c; q_add_groups := k_add_groups c |} in
   certgen (fun t _ => lookup_opt (k_expansions c) t) st 0%Z true q.
